@@ -13,7 +13,7 @@ kept by push / delete / create, so a list built by pushing names denotes exactly
 expansion ▸ 3. find is complete (first occurrence) under the suffix bound the code imposes (F10 is the counterexample), with no proviso
 for lists built by pushes and deletes ▸ 4. delete removes exactly the first occurrence ▸ 5. the compressed string parses back to the
 same names (ranges of at most 16384 hosts; a larger one is the counterexample) ▸ 6. sort is a permutation of the names
-(total restatement `sortHLF` of the `partial` sort mirrors; F19 is the abort counterexample). -/
+(the sort mirror is total: fuel computed from the input; F19 is the abort counterexample). -/
 namespace Pm.Props.C14
 open Pm
 
@@ -274,10 +274,12 @@ example : (∀ n ∈ sampleNames, LegalName n) ∧ (∀ r ∈ sampleNames.foldl 
 
 /-! ## 6. sorting (qsort, then `hostlist_coalesce`, then `hostlist_collapse`) is a permutation of the names
 
-`msort`, `coalesce`, `collapse` of `Sort2.lean` are `partial def`s; `sortHLF` (`SortF.lean`) is their total restatement
-(same merge order, same width side effects, same assert; computed fuel, explicit `.fuel` outcome).  `sortHLF` and `sortHL`
-agree on every list tried (23 hand-written ones recorded in `SortF.lean`, 20000 pseudo-random ones); that agreement is by
-evaluation only, since nothing can be proved about a `partial def`. -/
+`sortHL` (`Sort2.lean`: `msort`, `coalesce`, `collapse`) is the mirror the daemon model and the differential driver run: glibc's
+merge order, the width side effects of `hostrange_cmp`, the assert of `hostrange_intersect`; every loop structurally recursive on a
+fuel computed from its input, with an explicit `.fuel` outcome.  The merge sort and `hostlist_collapse` provably never run out
+(`C14_sort_fuel_partial`); for the outer loop of `hostlist_coalesce` the bound `(hosts + ranges + 2)⁴` is generous but its
+sufficiency is not proved, so the theorems below say "whenever `sortHL` returns `.ok`".  (These definitions replaced `partial` definitions;
+the record of their agreement on 23 hand-written and 20000 pseudo-random lists is in `SortF.lean`.) -/
 
 /-- sorting never adds, drops or renames a node: whenever `hostlist_sort` returns (no assert, fuel not exhausted),
     the expansion of the result is a permutation of the expansion of the input, duplicates included.  The proof does
@@ -285,47 +287,69 @@ evaluation only, since nothing can be proved about a `partial def`. -/
     whose comparisons may rewrite widths", and each iteration of coalesce (splitting two overlapping ranges into
     up to `2·overlap` pieces) and of collapse (joining two adjacent ranges) preserves the multiset of names.
     `HWFS` (the shape every constructor produces) is needed, `WF` is not enough: `C14_sort_needs_WFS`. -/
-theorem C14_sort_perm (hl hl' : Hostlist) (hwf : HWFS hl) (h : sortHLF hl = .ok hl') : (expand hl').Perm (expand hl) :=
-  sortHLF_perm hl hl' hwf h
+theorem C14_sort_perm (hl hl' : Hostlist) (hwf : HWFS hl) (h : sortHL hl = .ok hl') : (expand hl').Perm (expand hl) :=
+  sortHL_perm hl hl' hwf h
 
 /-- the sorted list is again of the shape every constructor produces -/
-theorem C14_sort_WFS (hl hl' : Hostlist) (hwf : HWFS hl) (h : sortHLF hl = .ok hl') : HWFS hl' :=
-  sortHLF_wfs hl hl' hwf h
+theorem C14_sort_WFS (hl hl' : Hostlist) (hwf : HWFS hl) (h : sortHL hl = .ok hl') : HWFS hl' :=
+  sortHL_wfs hl hl' hwf h
 
 /-- in particular membership and the number of hosts are unchanged by sorting -/
-theorem C14_sort_mem (hl hl' : Hostlist) (hwf : HWFS hl) (h : sortHLF hl = .ok hl') (n : Name) :
+theorem C14_sort_mem (hl hl' : Hostlist) (hwf : HWFS hl) (h : sortHL hl = .ok hl') (n : Name) :
     n ∈ expand hl' ↔ n ∈ expand hl := (C14_sort_perm hl hl' hwf h).mem_iff
 
-theorem C14_sort_count (hl hl' : Hostlist) (hwf : HWFS hl) (h : sortHLF hl = .ok hl') :
+theorem C14_sort_count (hl hl' : Hostlist) (hwf : HWFS hl) (h : sortHL hl = .ok hl') :
     (expand hl').length = (expand hl).length := (C14_sort_perm hl hl' hwf h).length_eq
 
 /-- the pieces, for an arbitrary store / id list satisfying the invariant `Inv` (ids distinct and in bounds, ranges `WFS`):
     the merge sort returns a permutation of the ids whatever the comparisons answer, and leaves every stored range
     with the same names (`SEq`) -/
-theorem C14_msort_perm {f : Nat} {st st' : Store} {ids res : List Nat} (h : msortF f st ids = .ok (res, st')) :
-    res.Perm ids ∧ SEq st st' := msortF_perm f st ids res st' h
+theorem C14_msort_perm {f : Nat} {st st' : Store} {ids res : List Nat} (h : msort f st ids = .ok (res, st')) :
+    res.Perm ids ∧ SEq st st' := msort_perm f st ids res st' h
 
 /-- `hostlist_coalesce` preserves the multiset of names, from any state satisfying `Inv` -/
-theorem C14_coalesce_perm {st st' : Store} {ids ids' : List Nat} (hinv : Inv st ids) (h : coalesceF st ids = .ok (ids', st')) :
-    Inv st' ids' ∧ (den st' ids').Perm (den st ids) := coalesceF_spec hinv h
+theorem C14_coalesce_perm {st st' : Store} {ids ids' : List Nat} (hinv : Inv st ids) (h : coalesce st ids = .ok (ids', st')) :
+    Inv st' ids' ∧ (den st' ids').Perm (den st ids) := coalesce_spec hinv h
 
 /-- `hostlist_collapse` preserves the multiset of names, from any state satisfying `Inv` -/
-theorem C14_collapse_perm {st st' : Store} {ids ids' : List Nat} (hinv : Inv st ids) (h : collapseF st ids = .ok (ids', st')) :
-    Inv st' ids' ∧ (den st' ids').Perm (den st ids) := collapseF_spec hinv h
+theorem C14_collapse_perm {st st' : Store} {ids ids' : List Nat} (hinv : Inv st ids) (h : collapse st ids = .ok (ids', st')) :
+    Inv st' ids' ∧ (den st' ids').Perm (den st ids) := collapse_spec hinv h
+
+/- Full-strength statement, not proved: `theorem C14_sort_fuel (hl) (hwf : HWFS hl) : sortHL hl ≠ .fuel`.
+   What is missing is a termination measure for the outer loop of `hostlist_coalesce` (each split restarts the scan; splits
+   that add ranges are bounded by the number of hosts, splits that only exchange the ends of two ranges remove one inversion
+   of the `hi` sequence) carried through the store/id representation. -/
+
+/-- `hostlist_sort` can report `.fuel` only through the outer loop of `hostlist_coalesce`: the merge sort (recursion depth
+    `≤ length`, merge loop `≤ |l| + |r|` steps) and `hostlist_collapse` (`i` goes down by one per step) never exceed their bounds -/
+theorem C14_sort_fuel_partial (hl : Hostlist) (h : sortHL hl = .fuel) :
+    ∃ ids st, msort (hl.length + 1) hl.toArray (List.range hl.length) = .ok (ids, st) ∧ coalesce st ids = .fuel :=
+  sortHL_fuel_only_coalesce hl h
+
+theorem C14_msort_no_fuel (f : Nat) (st : Store) (ids : List Nat) (h : ids.length ≤ f) (hf : 0 < f) : msort f st ids ≠ .fuel :=
+  msort_ne_fuel f st ids h hf
+
+theorem C14_collapse_no_fuel (st : Store) (ids : List Nat) : collapse st ids ≠ .fuel := collapse_ne_fuel st ids
+
+/-- heavy duplication is where the iteration count grows (ten copies of `n[1-30]`: 109364 iterations of the outer loop of
+    `hostlist_coalesce` for 300 hosts, more than the square of the size); a small instance, evaluated in the kernel: three
+    copies of `n[1-5]` sort to a list that still holds every host three times -/
+example : (match sortHL (hlOfString "n[1-5],n[1-5],n[1-5]") with | .ok hl => (expand hl).length | _ => 0) = 15 := by
+  decide +kernel
 
 /-- F19: sorting `f[97-100,066,97-103]` dies in `assert(hostrange_cmp(h1, h2) <= 0)` of `hostrange_intersect` -/
-theorem C14_sort_abort_counterexample : sortHLF (hlOfString "f[97-100,066,97-103]") = .abort := sortHLF_F19_abort
+theorem C14_sort_abort_counterexample : sortHL (hlOfString "f[97-100,066,97-103]") = .abort := sortHL_F19_abort
 
 /-- `WF` alone is not enough for the sort theorem: two single names `x` stored with different `lo`/`hi` fields (which
     no constructor produces) are joined by `hostlist_collapse` into one, losing a duplicate -/
 theorem C14_sort_needs_WFS :
     HWF [⟨['x'], 0, 0, 0, true⟩, ⟨['x'], 1, 1, 0, true⟩] ∧
-    sortHLF [⟨['x'], 0, 0, 0, true⟩, ⟨['x'], 1, 1, 0, true⟩] = .ok [⟨['x'], 0, 1, 0, true⟩] ∧
+    sortHL [⟨['x'], 0, 0, 0, true⟩, ⟨['x'], 1, 1, 0, true⟩] = .ok [⟨['x'], 0, 1, 0, true⟩] ∧
     expand [⟨['x'], 0, 0, 0, true⟩, ⟨['x'], 1, 1, 0, true⟩] = [['x'], ['x']] ∧
-    expand [⟨['x'], 0, 1, 0, true⟩] = [['x']] := sortHLF_HWF_counterexample
+    expand [⟨['x'], 0, 1, 0, true⟩] = [['x']] := sortHL_HWF_counterexample
 
 example : HWFS (hlOfString "b2,a[1-3],a[2-5],b1") ∧
-    sortHLF (hlOfString "b2,a[1-3],a[2-5],b1") = .ok (hlOfString "a[1-2],a[2-3],a[3-5],b[1-2]") := by
+    sortHL (hlOfString "b2,a[1-3],a[2-5],b1") = .ok (hlOfString "a[1-2],a[2-3],a[3-5],b[1-2]") := by
   constructor
   · unfold HWFS; decide +kernel
   · decide +kernel
